@@ -79,6 +79,12 @@ func genPlanC14(rt *rapid.T) *RPlan {
 		p.Net = append(p.Net, n)
 	}
 	p.FinalLost = rapid.IntRange(0, 2).Draw(rt, "final-lost") > 0
+	if rapid.IntRange(0, 2).Draw(rt, "failing-transmissions") == 0 {
+		// socket errors at arbitrary positions of the transmission sequence: they hit retransmissions too
+		for i := 0; i < rapid.IntRange(1, 4).Draw(rt, "n-fail-at"); i++ {
+			p.FailAt = append(p.FailAt, rapid.IntRange(0, total+2*cp).Draw(rt, "fail-at"))
+		}
+	}
 	switch rapid.IntRange(0, 2).Draw(rt, "consumer") {
 	case 0:
 		p.Consumer = []RCon{{AfterUs: 10, Kind: "drain"}}
